@@ -57,27 +57,27 @@ class StreamingDetector(ABC):
         """
         if isinstance(X, DataFrame):
             # The first update with a dataframe will constrain subsequent input.
-            if self._input_cols is None:
-                self._input_cols = X.columns
-                self._input_col_dim = len(self._input_cols)
-            elif self._input_cols is not None:
+            if self._input_cols is not None:
                 if not X.columns.equals(self._input_cols):
                     raise ValueError(
                         "Columns of new data must match with columns of prior data."
                     )
+            elif self._input_col_dim is not None:
+                if len(X.columns) != self._input_col_dim:
+                    raise ValueError(
+                        "Column-dimension of new data must match prior data."
+                    )
+            input_cols = X.columns
             # copy, so that the detector never holds a view of the caller's data
             ary = X.values.copy()
         else:
+            input_cols = self._input_cols
             ary = copy.copy(X)
             ary = np.array(ary)
             if len(ary.shape) <= 1:
                 # only one sample should be passed, so coerce column vectors (e.g. pd.Series) to rows
                 ary = ary.reshape(1, -1)
-            if self._input_col_dim is None:
-                # This allows starting with a dataframe, then later passing bare
-                # numpy arrays. For now, assume users are not miscreants.
-                self._input_col_dim = ary.shape[1]
-            elif self._input_col_dim is not None:
+            if self._input_col_dim is not None:
                 if ary.shape[1] != self._input_col_dim:
                     raise ValueError(
                         "Column-dimension of new data must match prior data."
@@ -87,6 +87,10 @@ class StreamingDetector(ABC):
             raise ValueError(
                 "Input for streaming detectors should contain only one observation."
             )
+        # Only an accepted input constrains subsequent input. This allows
+        # starting with a dataframe, then later passing bare numpy arrays.
+        self._input_cols = input_cols
+        self._input_col_dim = ary.shape[1]
         return ary
 
     def _validate_y(self, y):
@@ -236,28 +240,23 @@ class BatchDetector(ABC):
         """
         if isinstance(X, DataFrame):
             # The first update with a dataframe will constrain subsequent input.
-            if self._input_cols is None:
-                self._input_cols = X.columns
-                self._input_col_dim = len(self._input_cols)
-            elif self._input_cols is not None:
+            if self._input_cols is not None:
                 if not X.columns.equals(self._input_cols):
                     raise ValueError(
                         "Columns of new data must match with columns of prior data."
                     )
+            input_cols = X.columns
             # copy, so that the detector never holds a view of the caller's data
             ary = X.values.copy()
         else:
+            input_cols = self._input_cols
             ary = copy.copy(X)
             ary = np.array(ary)
             if len(ary.shape) <= 1:
                 # Batch size of 1 will break downstream - don't allow it.
                 # Attempts to coerce a row vector into a column vector.
                 ary = ary.reshape(-1, 1)
-            if self._input_col_dim is None:
-                # This allows starting with a dataframe, then later passing bare
-                # numpy arrays. For now, assume users are not miscreants.
-                self._input_col_dim = ary.shape[1]
-            elif self._input_col_dim is not None:
+            if self._input_col_dim is not None:
                 if ary.shape[1] != self._input_col_dim:
                     raise ValueError(
                         "Column-dimension of new data must match prior data."
@@ -266,6 +265,10 @@ class BatchDetector(ABC):
             raise ValueError(
                 "Input for batch detectors should contain more than one observation."
             )
+        # Only an accepted input constrains subsequent input. This allows
+        # starting with a dataframe, then later passing bare numpy arrays.
+        self._input_cols = input_cols
+        self._input_col_dim = ary.shape[1]
         return ary
 
     def _validate_y(self, y):
